@@ -49,7 +49,8 @@ def cases(tier, seed):
     # (B) experiments within a deviation bound
     dims = [('ninst', [1, 2, 3]), ('nbeads', [1, 0, 2]), ('nsamples', [2, 1, 3, 4]), ('gf', [0.85, 0.3, 1.0]), ('cont', ['int', 'float', 'double']),
             ('neg', [False, True]), ('hist', [True, False]), ('units', ['mixed', 'all-mef', 'none', 'channel']),
-            ('res', ['same', 'mixed']), ('cluster', ['all', 'second-only', 'first-only'])]
+            ('res', ['same', 'mixed']), ('cluster', ['all', 'second-only', 'first-only']),
+            ('nevents', ['many', 'smallest-accepted', 'one-more'])]       # 400 events is the smallest file the workflow accepts
     for cfg in explore.deviations(dims, 1 if tier == 'quick' else 2):
         yield dict(kind='experiment', cfg=cfg)
 
@@ -111,7 +112,8 @@ def build_experiment(c, d):
         for k in range(cfg['nsamples']):
             inst = insts[k % len(insts)]
             wg.write_fcs(os.path.join(d, 'sub', 'cells%d.fcs' % k), wg.cell_layout(inst, stream=50 + k, container=cfg['cont'], negatives=cfg['neg'] and cfg['cont'] != 'int',
-                                                                                  n=800 + 150 * k, level=150.0 + 60 * k,
+                                                                                  n={'many': 800 + 150 * k, 'smallest-accepted': 400 + 600 * (k % 2), 'one-more': 401 + k}[cfg.get('nevents', 'many')],
+                                                                                  level=150.0 + 60 * k,
                                                                                   res=[1024, 256] if cfg.get('res') == 'mixed' else None))
             mybeads = [b for b in beads if b['inst'] == inst['id']]
             if cfg['units'] == 'mixed':
